@@ -69,6 +69,8 @@ type swarm struct {
 	navigate   bool // multi-board input and a browser tab that navigates between boards (page GETs)
 	fFsErr     bool // the fsnotify Errors channel delivers errors
 	checkpoint bool // after some saves the editor pauses and the end-of-run conditions are checked
+	slowWL     bool // "slow node": one client's write loop does not get the CPU for a while
+	deafClient bool // a browser stops reading for 8-68 simulated seconds, then shutdown is requested
 }
 
 type frame struct {
@@ -839,6 +841,8 @@ func runInBubble(hcfg harness.Config, idx int, tp *tape.Tape, dir string, res *h
 	w.cfg.navigate = tp.Chance(1, 4, "cfg.navigate")
 	w.cfg.fFsErr = tp.Chance(1, 4, "cfg.fserr")
 	w.cfg.checkpoint = tp.Chance(2, 3, "cfg.checkpoint")
+	w.cfg.slowWL = tp.Chance(1, 3, "cfg.slowwriteloop")
+	w.cfg.deafClient = tp.Chance(1, 3, "cfg.deafclient")
 	w.attached = w.cfg.imports
 	sim.TimeWeight = 1
 	for _, cl := range []string{"req", "compile.wait", "compile.start", "compile.bcast", "bcast.res", "bcast.clients", "ws.admit", "ws.accept", "ws.register",
@@ -972,6 +976,25 @@ func runInBubble(hcfg harness.Config, idx int, tp *tape.Tape, dir string, res *h
 		}
 	}
 
+	// "Slow node" fault (a third of the runs): at a tape-chosen step one client's write loop,
+	// wherever it is parked, stops getting the CPU for 30-250 scheduler decisions - long
+	// enough for several compiles to finish and broadcast meanwhile - and then carries on.
+	frozen, frozenUntil := "", 0
+	freezeAt, freezesLeft := -1, 0
+	seenWL := map[string]bool{}
+	if w.cfg.slowWL {
+		freezeAt = 10 + tp.Draw(250, "cfg.freezeat")
+		freezesLeft = 2
+	}
+	// Deaf client (C45 profile, a third of the runs): a connected browser stops reading - a
+	// frozen tab, a sleeping laptop - for 8-68 simulated seconds, long enough for pings to
+	// go unanswered; then the operator's signal becomes very likely while it is still deaf.
+	deaf, deafSince, deafFor, deafAt := "", time.Duration(0), time.Duration(0), -1
+	if w.cfg.deafClient && w.cfg.profile == "C45" {
+		deafAt = 10 + tp.Draw(150, "cfg.deafat")
+	}
+	notFrozen := func(k string) bool { return k != frozen && k != deaf }
+
 	// ---- phase 1: workload
 	signalStep := -1
 	if w.cfg.profile == "C45" {
@@ -1021,8 +1044,72 @@ func runInBubble(hcfg harness.Config, idx int, tp *tape.Tape, dir string, res *h
 				break
 			}
 		}
+		if frozen != "" && (sim.Steps >= frozenUntil || w.signalled.Load()) {
+			sim.Logf("slow node: %s gets the CPU again", frozen)
+			frozen = ""
+		}
+		if deafAt >= 0 && deaf == "" && sim.Steps >= deafAt && !w.signalled.Load() {
+			var cands []string
+			for _, k := range sim.ParkedKeys() {
+				if strings.HasPrefix(k, "browser:") && strings.Count(k, ":") == 1 {
+					cands = append(cands, k)
+				}
+			}
+			if len(cands) > 0 {
+				deaf = cands[tp.Draw(len(cands), "deaf.which")]
+				deafSince, deafFor = sim.Now(), 8*time.Second+time.Duration(tp.Draw(60, "deaf.seconds"))*time.Second
+				deafAt = -1
+				w.fault("client_stopped_reading_for_a_long_time")
+				sim.Logf("deaf client: %s stops reading for at least %v", deaf, deafFor)
+			}
+		}
+		if freezesLeft > 0 && frozen == "" && !w.signalled.Load() {
+			// either at the tape-chosen step, wherever a write loop is parked then, or
+			// (one time in three) right when a write loop arrives at its read of the
+			// latest result for the first time: a client that has just registered
+			var cands []string
+			for _, k := range sim.ParkedKeys() {
+				isWL := strings.HasPrefix(k, "wl.wait:") || strings.HasPrefix(k, "wl.getres:") || strings.HasPrefix(k, "lk:watcher.getRes:")
+				if !isWL {
+					continue
+				}
+				if freezeAt >= 0 && sim.Steps >= freezeAt {
+					cands = append(cands, k)
+				} else if strings.HasPrefix(k, "wl.getres:") && !seenWL[k] {
+					seenWL[k] = true
+					if tp.Chance(1, 3, "freeze.newclient") {
+						cands = append(cands, k)
+					}
+				}
+			}
+			if len(cands) > 0 {
+				frozen = cands[tp.Draw(len(cands), "freeze.which")]
+				frozenUntil = sim.Steps + 30 + tp.Draw(220, "freeze.len")
+				if freezeAt >= 0 && sim.Steps >= freezeAt {
+					freezeAt = -1
+				}
+				freezesLeft--
+				w.fault("client_write_loop_stalled")
+				sim.Logf("slow node: %s does not get the CPU for %d decisions", frozen, frozenUntil-sim.Steps)
+			}
+		}
 		w.biasInFlight()
 		w.biasHandshakes()
+		if deaf != "" {
+			if w.closeBegun.Load() && !w.systemParkedAny() {
+				deaf = "" // shutdown is past the point of waiting: the tab wakes up
+			} else if !w.signalled.Load() {
+				if sim.Now()-deafSince < deafFor {
+					sim.TimeWeight = 10 // let the seconds pass, in small steps
+					sim.Advances = deafAdvances
+				} else {
+					sim.TimeWeight = 1
+					sim.Advances = w.baseAdvances
+					sim.ClassWeight["operator"] = 400
+					signalStep = 0
+				}
+			}
+		}
 		if w.signalled.Load() {
 			sim.ClassWeight["operator"] = 0
 			// After the shutdown request the O45.3 bound is running: the clock may only
@@ -1030,7 +1117,7 @@ func runInBubble(hcfg harness.Config, idx int, tp *tape.Tape, dir string, res *h
 			// (simulated clients that stall are fine: that is their fault, not ours).
 			allowTime = !w.systemParked()
 		}
-		if !sim.Step(allowTime, nil) {
+		if !sim.Step(allowTime, notFrozen) {
 			sim.Advance(time.Second)
 		}
 		if sim.Now() > 25*time.Minute {
@@ -1208,6 +1295,8 @@ func (w *world) biasInFlight() {
 		w.sim.Advances = w.baseAdvances
 	}
 }
+
+var deafAdvances = []time.Duration{200 * time.Millisecond, time.Second, 2 * time.Second}
 
 var shortAdvances = []time.Duration{time.Millisecond, 16 * time.Millisecond, 16 * time.Millisecond, 100 * time.Millisecond}
 
